@@ -133,19 +133,13 @@ theorem updateW_all (P : Block → Prop) (rs : List (Block × Block × Block)) (
       · exact hw B (mem_removeFirst_sub y w B hB)
       · exact hr.1
       · exact hr.2
-    · split
-      · apply ih hrest
-        intro B hB
-        simp only [List.mem_append, List.mem_cons, List.mem_nil_iff, or_false] at hB
-        rcases hB with hB | rfl
-        · exact hw B hB
-        · exact hr.1
-      · apply ih hrest
-        intro B hB
-        simp only [List.mem_append, List.mem_cons, List.mem_nil_iff, or_false] at hB
-        rcases hB with hB | rfl
-        · exact hw B hB
-        · exact hr.2
+    · apply ih hrest
+      intro B hB
+      simp only [List.mem_append, List.mem_cons, List.mem_nil_iff, or_false] at hB
+      rcases hB with hB | rfl | rfl
+      · exact hw B hB
+      · exact hr.1
+      · exact hr.2
 
 structure MInv (d : Dfa) (p w : List Block) : Prop where
   pinv : PInv d p
